@@ -38,13 +38,14 @@ class Conc(V):
 
 
 class Abs(V):
-    __slots__ = ("k", "deps", "sym", "cap")
+    __slots__ = ("k", "deps", "sym", "cap", "sign")
 
-    def __init__(self, k, deps=frozenset(), sym=None, cap=None):
+    def __init__(self, k, deps=frozenset(), sym=None, cap=None, sign=None):
         self.k = frozenset(k)
         self.deps = frozenset(deps)
         self.sym = sym
         self.cap = cap  # ('min'|'max', symarg, deps of the other operand)
+        self.sign = sign  # None | 'pos' (> 0) | 'nonneg' (>= 0)
 
     def __repr__(self):
         s = f"Abs({sorted(self.k)}"
@@ -116,6 +117,48 @@ def kinds(av):
     return frozenset(["obj"])
 
 
+def sign_of(av):
+    """'pos' | 'nonneg' | None"""
+    a = alts(av)
+    if a is not None:
+        try:
+            vals = [float(x) for x in a if not isinstance(x, V)]
+            if len(vals) != len(a) or any(math.isnan(x) for x in vals):
+                return None
+            if all(x > 0 for x in vals):
+                return "pos"
+            if all(x >= 0 for x in vals):
+                return "nonneg"
+        except Exception:  # noqa: BLE001
+            return None
+        return None
+    if isinstance(av, Abs):
+        return av.sign
+    return None
+
+
+def _sign_join(a, b):
+    if a == "pos" and b == "pos":
+        return "pos"
+    if a in ("pos", "nonneg") and b in ("pos", "nonneg"):
+        return "nonneg"
+    return None
+
+
+def sign_binop(op, a, b):
+    sa, sb = sign_of(a), sign_of(b)
+    if sa is None or sb is None:
+        return None
+    if isinstance(op, ast.Add):
+        return "pos" if "pos" in (sa, sb) else "nonneg"
+    if isinstance(op, ast.Mult):
+        return "pos" if sa == sb == "pos" else "nonneg"
+    if isinstance(op, ast.Div):
+        if sb == "pos":
+            return "pos" if sa == "pos" else "nonneg"
+    return None
+
+
 def alts(av):
     """list of concrete alternatives or None"""
     if isinstance(av, Conc):
@@ -161,9 +204,10 @@ def join(a, b):
         return mk_oneof([*aa, *bb], a.deps | b.deps)
     if isinstance(a, AList) and isinstance(b, AList) and len(a.elems) == len(b.elems):
         return AList([join(x, y) for x, y in zip(a.elems, b.elems)])
+    sg = _sign_join(sign_of(a), sign_of(b))
     if isinstance(a, Abs) and isinstance(b, Abs) and a.sym and a.sym == b.sym:
-        return Abs(a.k | b.k, a.deps | b.deps, sym=a.sym)
-    return Abs(kinds(a) | kinds(b), a.deps | b.deps)
+        return Abs(a.k | b.k, a.deps | b.deps, sym=a.sym, sign=sg)
+    return Abs(kinds(a) | kinds(b), a.deps | b.deps, sign=sg)
 
 
 OPS = {
@@ -278,6 +322,9 @@ class Interp:
             except Exception:  # noqa: BLE001
                 pass
         if self.mode == "atoms":
+            # only primitive tests are atoms; compound tests fold from their parts
+            if isinstance(node, (ast.BoolOp, ast.IfExp)) or (isinstance(node, ast.UnaryOp) and isinstance(node.op, ast.Not)):
+                return None
             key = ast.unparse(node)
             if key not in self.atoms_found:
                 self.atoms_found.append(key)
@@ -453,7 +500,7 @@ class Interp:
             self.E("none-arith", n, ast.unparse(n), guards=g)
         if ka <= {"seq", "array"} or kb <= {"seq", "array"}:
             return Abs({"seq"}, deps)
-        return Abs(arith_kinds(op, ka, kb, b), deps)
+        return Abs(arith_kinds(op, ka, kb, b), deps, sign=sign_binop(op, a, b))
 
     def ev_UnaryOp(self, n, env, g):
         a = self.ev(n.operand, env, g)
@@ -844,7 +891,12 @@ class Interp:
                 for me, other in ((src[0], src[1]), (src[1], src[0])):
                     if isinstance(me, Abs) and me.sym:
                         cap = (fname, me.sym, other.deps)
-            return Abs(ks, deps, cap=cap)
+            sgs = [sign_of(x) for x in src]
+            if fname == "min":
+                sg = "pos" if all(x == "pos" for x in sgs) else ("nonneg" if all(x in ("pos", "nonneg") for x in sgs) else None)
+            else:
+                sg = "pos" if "pos" in sgs else ("nonneg" if "nonneg" in sgs else None)
+            return Abs(ks, deps, cap=cap, sign=sg)
         if fname == "sum" and not shadow:
             a = args[0] if args else Abs({"obj"})
             src = [Conc(x) for x in a.v] if isinstance(a, Conc) else a.elems if isinstance(a, AList) else [Abs({"obj"}, a.deps)]
@@ -869,13 +921,16 @@ class Interp:
         if fname in ("list", "tuple", "sorted", "set") and args and isinstance(args[0], AList):
             return args[0]
         if fname in ("float", "int", "bool", "str"):
-            return Abs({fname}, deps)
+            sg = sign_of(args[0]) if args else None
+            if fname == "int" and sg == "pos":
+                sg = "nonneg"
+            return Abs({fname}, deps, sign=sg if fname in ("float", "int") else None)
         if fname == "len":
             return Abs({"int"}, deps)
         if fname == "round":
             return Abs({"int"}, deps) if len(args) == 1 else Abs(kinds(args[0]), deps)
         if fname == "abs":
-            return Abs({("int" if k == "bool" else k) for k in kinds(args[0])}, deps)
+            return Abs({("int" if k == "bool" else k) for k in kinds(args[0])}, deps, sign="nonneg")
         if fname == "piecewise_polynomial":
             pos = ["x", "thresholds", "rates", "intercepts_at_lower_thresholds", "rates_multiplier"]
             a = dict(zip(pos, args))
@@ -1073,7 +1128,7 @@ def _with_ctrl(v, ctrl):
     control dependence (kept separate from value deps through the 'ctrl:' prefix)"""
     extra = frozenset("ctrl:" + d if not d.startswith("ctrl:") else d for d in ctrl)
     if isinstance(v, Abs):
-        return Abs(v.k, v.deps | extra, sym=None, cap=None)
+        return Abs(v.k, v.deps | extra, sym=None, cap=None, sign=v.sign)
     if isinstance(v, OneOf):
         return OneOf(v.vals, v.deps | extra)
     return v
